@@ -152,7 +152,12 @@ PROPS["C02"] = dict(
           "and variables (defaults at argument/variable/input-field level, omitted vs explicit null, single-value-to-list, enums, custom "
           "integer scalars, nested and recursive input objects) in three classes valid / invalid / lenient; the universal resolver "
           "records the Go values it received (Omittable and map-backed absence observable); plus a direct sweep of every built-in "
-          "scalar unmarshaler over boundary numbers in every carrier form with an exact-rational equal-or-error oracle",
+          "scalar unmarshaler over boundary numbers in every carrier form with an exact-rational equal-or-error oracle; execution-phase "
+          "coercion errors must carry a path that names a position of the value that was sent (walked through variables and defaults); "
+          "and argument / input-field directives (@chk on arguments, input fields, nested and listed input objects): with passing "
+          "directives the resolver receives exactly what a directive-free twin field receives, every position that carries a value runs "
+          "its directive exactly once and no other position does (omitted/null positions are optional as the option says), and a "
+          "directive that fails or panics leaves the resolver uncalled with one error at the guarded position",
     note="gqlparser validates literals and variables first; where gqlgen/gqlparser are more lenient than the spec the case is in the "
          "lenient class (only 'equal or error' and 'no number silently changed' are asserted there)",
     technique="property-based differential testing (rapid) against a reference coercion algorithm; three-valued expectations",
